@@ -61,13 +61,17 @@ type c06Op struct {
 }
 
 type c06Probe struct {
-	M int    `json:"m"`
-	P string `json:"p"`
+	M   int    `json:"m"`
+	P   string `json:"p"`
+	Raw bool   `json:"raw,omitempty"` // the path is handed over as URL.RawPath (FindRule prefers it)
 }
 
 type c06Case struct {
 	Ops    []c06Op    `json:"ops"`
 	Probes []c06Probe `json:"probes"`
+	// the source ids the sources 0,1,2.. stand for (default s0,s1,..); they are not part of the model,
+	// which only needs them to be different
+	SrcNames []string `json:"src_names,omitempty"`
 }
 
 type c06Step struct {
@@ -75,6 +79,9 @@ type c06Step struct {
 	Hist    []int `json:"hist"`
 	FreshOK bool  `json:"fresh_ok"`
 	Fresh   []int `json:"fresh"`
+	// what FindRule left in Request.URL.Captures, per probe, as a label of the (sorted) map; history and fresh
+	HistCap  []int `json:"hist_cap"`
+	FreshCap []int `json:"fresh_cap"`
 }
 
 type c06Obs struct {
@@ -118,6 +125,90 @@ type c06World struct {
 	proc    rule.SetProcessor
 	factory *c06Factory
 	labels  map[*ruleImpl]int
+	names   []string
+}
+
+// source ids with prefix / case / emptiness relations (real ids are file paths and URLs)
+var c06SrcFamilies = [][]string{
+	{"s0", "s1", "s2", "s3", "s4", "s5"},
+	{"s1", "s10", "s100", "s", "S1", "s1/a"},
+	{"a", "ab", "abc", "A", "aB", "a.b"},
+	{"file:///rules/a.yaml", "file:///rules/a.yaml.bak", "file:///rules/ab.yaml", "file:///rules", "FILE:///rules/a.yaml", "http://h/a"},
+	{"", "x", "xx", "X", "x ", "\xc3\xa9"},
+}
+
+func (w *c06World) srcName(i int) string {
+	if i < len(w.names) {
+		return w.names[i]
+	}
+
+	return fmt.Sprintf("s%d", i)
+}
+
+// rule ids, likewise
+var c06IDNames = []string{"r0", "r1", "r10", "R1", "r", "r1.a", "r01", "r1/b"}
+
+func c06IDName(n int) string {
+	if n >= 0 && n < len(c06IDNames) {
+		return c06IDNames[n]
+	}
+
+	return fmt.Sprintf("q%d", n)
+}
+
+// the rest of a rule's definition: [body] spreads over everything the rule hash must cover
+// besides id, paths, methods and flag (digits: execute 3, forward_to 3, hosts 2, scheme 2,
+// allow_encoded_slashes 2, on_error 2, path_params 2)
+const c06BodyRange = 3 * 3 * 2 * 2 * 2 * 2 * 2
+
+var c06BodyRadix = []int{3, 3, 2, 2, 2, 2, 2}
+
+func c06ApplyBody(rc *config2.Rule, body int) {
+	if body < 0 {
+		body = -body
+	}
+
+	e := body % 3
+	body /= 3
+	rc.Execute = []config.MechanismConfig{{"authenticator": fmt.Sprintf("a%d", e)}}
+
+	if b := body % 3; b > 0 {
+		rc.Backend = &config2.Backend{Host: fmt.Sprintf("up%d:8080", b)}
+	}
+
+	body /= 3
+
+	if body%2 == 1 {
+		rc.Matcher.Hosts = []config2.HostMatcher{{Value: "h", Type: "exact"}}
+	}
+
+	body /= 2
+
+	if body%2 == 1 {
+		rc.Matcher.Scheme = "http"
+	}
+
+	body /= 2
+
+	if body%2 == 1 {
+		rc.EncodedSlashesHandling = config2.EncodedSlashesOn
+	}
+
+	body /= 2
+
+	if body%2 == 1 {
+		rc.ErrorHandler = []config.MechanismConfig{{"error_handler": "e1"}}
+	}
+
+	body /= 2
+
+	if body%2 == 1 && len(rc.Matcher.Routes) > 0 {
+		rc.Matcher.Routes[0].PathParams = []config2.ParameterMatcher{{Name: "p0", Value: "*", Type: "glob"}}
+	}
+
+	if body >= 2 { // anything beyond the known digits still has to change the hash
+		rc.Execute = append(rc.Execute, config.MechanismConfig{"authorizer": fmt.Sprintf("z%d", body/2)})
+	}
 }
 
 // c06Factory is the rule factory behind the processor: it turns the rule
@@ -165,8 +256,8 @@ func (f *c06Factory) CreateRule(_, srcID string, rc config2.Rule) (rule.Rule, er
 	return r, nil
 }
 
-func c06NewWorld() *c06World {
-	w := &c06World{labels: map[*ruleImpl]int{}}
+func c06NewWorld(names []string) *c06World {
+	w := &c06World{labels: map[*ruleImpl]int{}, names: names}
 	w.factory = &c06Factory{world: w, failAt: -1}
 	w.repo = newRepository(w.factory)
 	w.proc = NewRuleSetProcessor(w.repo, w.factory)
@@ -176,17 +267,14 @@ func c06NewWorld() *c06World {
 
 func (w *c06World) ruleSet(src int, defs []c06Def, version string) *config2.RuleSet {
 	rs := &config2.RuleSet{
-		MetaData: config2.MetaData{Source: fmt.Sprintf("s%d", src)},
+		MetaData: config2.MetaData{Source: w.srcName(src)},
 		Version:  version,
 		Name:     "generated",
 	}
 
 	for _, d := range defs {
 		bt := d.BT
-		rc := config2.Rule{
-			ID:      fmt.Sprintf("r%d", d.ID),
-			Execute: []config.MechanismConfig{{"authenticator": fmt.Sprintf("a%d", d.Body)}},
-		}
+		rc := config2.Rule{ID: c06IDName(d.ID)}
 		rc.Matcher.BacktrackingEnabled = &bt
 
 		for _, m := range d.Meth {
@@ -197,6 +285,7 @@ func (w *c06World) ruleSet(src int, defs []c06Def, version string) *config2.Rule
 			rc.Matcher.Routes = append(rc.Matcher.Routes, config2.Route{Path: p})
 		}
 
+		c06ApplyBody(&rc, d.Body)
 		rs.Rules = append(rs.Rules, rc)
 	}
 
@@ -256,44 +345,65 @@ func (w *c06World) apply(op c06Op) (code int) {
 	return c06ErrCode(err, false)
 }
 
-// answer: 0 = no rule, label+1 = rule, -1 = panic
-func (w *c06World) lookup(p c06Probe) (ans int) {
+// answer: 0 = no rule, label+1 = rule, -1 = panic; and the captures FindRule left in the request
+func (w *c06World) lookup(p c06Probe) (ans int, caps string) {
 	defer func() {
 		if r := recover(); r != nil {
-			ans = -1
+			ans, caps = -1, "panic"
 		}
 	}()
 
-	ctx := &c06Ctx{req: &heimdall.Request{
-		Method: c06Methods[p.M%len(c06Methods)],
-		URL:    &heimdall.URL{URL: url.URL{Scheme: "http", Host: "h", Path: p.P}},
-	}}
+	u := url.URL{Scheme: "http", Host: "h", Path: p.P}
+	if p.Raw {
+		u.Path, u.RawPath = "/decoded/elsewhere", p.P
+	}
+
+	ctx := &c06Ctx{req: &heimdall.Request{Method: c06Methods[p.M%len(c06Methods)], URL: &heimdall.URL{URL: u}}}
 
 	r, err := w.repo.FindRule(ctx)
 	if err != nil {
-		return 0
+		return 0, ""
 	}
+
+	keys := make([]string, 0, len(ctx.req.URL.Captures))
+	for k, v := range ctx.req.URL.Captures {
+		keys = append(keys, fmt.Sprintf("%q=%q", k, v))
+	}
+
+	sort.Strings(keys)
+	caps = strings.Join(keys, ";")
 
 	ri, ok := r.(*ruleImpl)
 	if !ok {
-		return -1
+		return -1, caps
 	}
 
 	l, ok := w.labels[ri]
 	if !ok {
-		return -1
+		return -1, caps
 	}
 
-	return l + 1
+	return l + 1, caps
 }
 
-func (w *c06World) answers(ps []c06Probe) []int {
-	out := make([]int, len(ps))
+func (w *c06World) answers(ps []c06Probe, capIDs map[string]int) ([]int, []int) {
+	out, caps := make([]int, len(ps)), make([]int, len(ps))
+
 	for i, p := range ps {
-		out[i] = w.lookup(p)
+		var c string
+
+		out[i], c = w.lookup(p)
+
+		id, ok := capIDs[c]
+		if !ok {
+			id = len(capIDs)
+			capIDs[c] = id
+		}
+
+		caps[i] = id
 	}
 
-	return out
+	return out, caps
 }
 
 // the rule sets the implementation holds (creation order), from its own answers
@@ -330,8 +440,8 @@ func (s *c06Sets) apply(op c06Op) {
 	}
 }
 
-func (s *c06Sets) fresh() (*c06World, bool) {
-	w := c06NewWorld()
+func (s *c06Sets) fresh(names []string) (*c06World, bool) {
+	w := c06NewWorld(names)
 	ok := true
 
 	for _, src := range s.order {
@@ -351,14 +461,18 @@ type c06Runner struct {
 	probes []c06Probe
 	ops    []c06Op
 	steps  []c06Step
+	names  []string
+	capIDs map[string]int
 }
 
-func c06NewRunner(probes []c06Probe) *c06Runner {
+func c06NewRunner(probes []c06Probe, names []string) *c06Runner {
 	return &c06Runner{
-		world:  c06NewWorld(),
+		world:  c06NewWorld(names),
 		sets:   &c06Sets{defs: map[int][]c06Def{}},
 		labels: &c06Labels{m: map[string]int{}},
 		probes: probes,
+		names:  names,
+		capIDs: map[string]int{},
 	}
 }
 
@@ -378,11 +492,11 @@ func (r *c06Runner) do(op c06Op) bool {
 		r.sets.apply(op)
 	}
 
-	fw, fok := r.sets.fresh()
+	fw, fok := r.sets.fresh(r.names)
+	hist, hcap := r.world.answers(r.probes, r.capIDs)
+	fresh, fcap := fw.answers(r.probes, r.capIDs)
 	r.ops = append(r.ops, op)
-	r.steps = append(r.steps, c06Step{
-		Res: code, Hist: r.world.answers(r.probes), FreshOK: fok, Fresh: fw.answers(r.probes),
-	})
+	r.steps = append(r.steps, c06Step{Res: code, Hist: hist, FreshOK: fok, Fresh: fresh, HistCap: hcap, FreshCap: fcap})
 
 	return code == 0
 }
@@ -403,6 +517,9 @@ type c06Profile struct {
 	nsrc      int
 	maxOps    int
 	family    bool // the pool is one family: e, e/, e/*rest, e/:p, e/x, ec, and fallbacks
+	exotic    int  // % of segments that are empty, percent-encoded, non-ASCII, contain blanks; no leading slash
+	big       bool // 20..32 rules on a handful of expressions, up to 30 operations
+	weight    int
 	name      string
 }
 
@@ -443,6 +560,8 @@ func c06GenExpr(r *vf.Rand, pf *c06Profile) string {
 			sb.WriteString(`\` + vf.Pick(r, []string{":", "*", `\`}) + vf.Pick(r, []string{"", "a", "ab"}))
 		case x < 28+pf.escapes+pf.trouble:
 			sb.WriteString(vf.Pick(r, []string{"a", "ab"}) + vf.Pick(r, []string{":", "*", `\:`, `\*`, `\\`}) + vf.Pick(r, []string{"", "b", "c"}))
+		case x < 28+pf.escapes+pf.trouble+pf.exotic:
+			sb.WriteString(vf.Pick(r, []string{"", "%2F", "a%2Fb", "%2f", "\xc3\xa9", "\xc3\xa8", "a b", "A", "%", "a.b", "\xff"}))
 		default:
 			sb.WriteString(vf.Pick(r, c06Segs))
 		}
@@ -450,6 +569,10 @@ func c06GenExpr(r *vf.Rand, pf *c06Profile) string {
 
 	if r.Intn(100) < 8 {
 		sb.WriteByte('/')
+	}
+
+	if r.Intn(300) < pf.exotic { // no leading slash
+		return sb.String()[1:]
 	}
 
 	return sb.String()
@@ -498,16 +621,38 @@ func c06Derive(r *vf.Rand, pf *c06Profile, e string) string {
 
 func c06Profiles() []c06Profile {
 	return []c06Profile{
-		{name: "disjoint", share: 0, nsrc: 2, maxOps: 10, collide: 10, invalid: 4, reAdd: 2},
-		{name: "disjoint3", share: 0, nsrc: 3, maxOps: 14, collide: 15, invalid: 4, escapes: 6, reAdd: 2},
-		{name: "shared", share: 50, nsrc: 2, maxOps: 10, collide: 10, invalid: 3, reAdd: 2},
-		{name: "shared2", share: 70, nsrc: 1, maxOps: 12, collide: 0, invalid: 2, escapes: 3, reAdd: 0},
-		{name: "shared-flags", share: 50, mixFlags: true, nsrc: 2, maxOps: 10, collide: 8, invalid: 3, escapes: 4, reAdd: 2},
-		{name: "structural", share: 25, nsrc: 2, maxOps: 10, collide: 8, invalid: 3, escapes: 10, trouble: 12, keyNames: 25, reAdd: 2},
-		{name: "odd", share: 40, mixFlags: true, nsrc: 3, maxOps: 12, collide: 15, invalid: 8, escapes: 6, trouble: 4, keyNames: 8, dupPath: 12, dupID: 12, reAdd: 20},
-		{name: "long", share: 20, nsrc: 3, maxOps: 25, collide: 12, invalid: 4, escapes: 4, reAdd: 3},
-		{name: "family", share: 10, mixFlags: false, nsrc: 2, maxOps: 12, collide: 5, invalid: 1, reAdd: 1, family: true},
+		{name: "disjoint", weight: 10, share: 0, nsrc: 2, maxOps: 10, collide: 10, invalid: 4, reAdd: 2},
+		{name: "disjoint5", weight: 10, share: 0, nsrc: 5, maxOps: 16, collide: 15, invalid: 4, escapes: 6, reAdd: 2},
+		{name: "shared", weight: 10, share: 50, nsrc: 2, maxOps: 10, collide: 10, invalid: 3, reAdd: 2},
+		{name: "shared2", weight: 10, share: 70, nsrc: 1, maxOps: 12, collide: 0, invalid: 2, escapes: 3, reAdd: 0},
+		{name: "shared-flags", weight: 8, share: 50, mixFlags: true, nsrc: 3, maxOps: 10, collide: 8, invalid: 3, escapes: 4, reAdd: 2},
+		{name: "structural", weight: 10, share: 25, nsrc: 2, maxOps: 10, collide: 8, invalid: 3, escapes: 10, trouble: 12, keyNames: 25, exotic: 6, reAdd: 2},
+		{name: "exotic", weight: 8, share: 20, nsrc: 3, maxOps: 10, collide: 8, invalid: 3, escapes: 6, trouble: 6, exotic: 25, reAdd: 2},
+		{name: "odd", weight: 8, share: 40, mixFlags: true, nsrc: 4, maxOps: 12, collide: 15, invalid: 8, escapes: 6, trouble: 4, keyNames: 8, exotic: 8, dupPath: 12, dupID: 12, reAdd: 20},
+		{name: "long", weight: 10, share: 20, nsrc: 4, maxOps: 25, collide: 12, invalid: 4, escapes: 4, reAdd: 3},
+		{name: "family", weight: 10, share: 10, mixFlags: false, nsrc: 2, maxOps: 12, collide: 5, invalid: 1, reAdd: 1, family: true},
+		{name: "big", weight: 2, share: 85, nsrc: 2, maxOps: 30, collide: 5, invalid: 1, reAdd: 1, big: true},
 	}
+}
+
+func c06PickProfile(r *vf.Rand) c06Profile {
+	pfs := c06Profiles()
+	total := 0
+
+	for _, p := range pfs {
+		total += p.weight
+	}
+
+	x := r.Intn(total)
+	for _, p := range pfs {
+		if x < p.weight {
+			return p
+		}
+
+		x -= p.weight
+	}
+
+	return pfs[0]
 }
 
 type c06Gen struct {
@@ -541,6 +686,10 @@ func (g *c06Gen) pickExpr(src int, used map[string]bool) (string, bool) {
 
 func (g *c06Gen) newDef(src int, used map[string]bool) c06Def {
 	d := c06Def{ID: g.nextID[src], Body: g.r.Intn(3), BT: g.flag[src]}
+	if g.r.Bool() {
+		d.Body = g.r.Intn(c06BodyRange)
+	}
+
 	g.nextID[src]++
 
 	if g.pf.mixFlags {
@@ -601,9 +750,33 @@ func c06CloneDefs(ds []c06Def) []c06Def {
 	return out
 }
 
+// c06BumpBody changes exactly one of the fields [body] spreads over
+func c06BumpBody(r *vf.Rand, body int) int {
+	k := r.Intn(len(c06BodyRadix))
+	unit := 1
+
+	for i := 0; i < k; i++ {
+		unit *= c06BodyRadix[i]
+	}
+
+	digit := (body / unit) % c06BodyRadix[k]
+	nd := (digit + 1 + r.Intn(c06BodyRadix[k]-1)) % c06BodyRadix[k]
+
+	return body + (nd-digit)*unit
+}
+
 func (g *c06Gen) newSet(src int) []c06Def {
 	used := map[string]bool{}
 	n := 1 + g.r.Intn(4)
+
+	switch {
+	case g.pf.big:
+		n = 20 + g.r.Intn(13)
+	case g.r.Intn(100) < 5:
+		n = 0
+		g.tags["gen:empty-set"] = true
+	}
+
 	ds := make([]c06Def, 0, n)
 
 	for i := 0; i < n; i++ {
@@ -630,7 +803,8 @@ func (g *c06Gen) mutate(src int, base []c06Def) []c06Def {
 		case x < 8: // nothing
 			g.tags["mut:none"] = true
 		case x < 28 && len(ds) > 0: // only the rest of the definition changes
-			ds[g.r.Intn(len(ds))].Body += 1 + g.r.Intn(3)
+			i := g.r.Intn(len(ds))
+			ds[i].Body = c06BumpBody(g.r, ds[i].Body)
 			g.tags["mut:body"] = true
 		case x < 36 && len(ds) > 0:
 			i := g.r.Intn(len(ds))
@@ -675,10 +849,14 @@ func (g *c06Gen) mutate(src int, base []c06Def) []c06Def {
 			i := g.r.Intn(len(ds) + 1)
 			ds = append(ds[:i:i], append([]c06Def{d}, ds[i:]...)...)
 			g.tags["mut:new-rule"] = true
-		case x < 82 && len(ds) > 1:
+		case x < 82 && len(ds) > 0:
 			i := g.r.Intn(len(ds))
 			ds = append(ds[:i:i], ds[i+1:]...)
 			g.tags["mut:rule-gone"] = true
+
+			if len(ds) == 0 {
+				g.tags["gen:empty-set"] = true
+			}
 		case x < 94 && len(ds) > 1:
 			i, j := g.r.Intn(len(ds)), g.r.Intn(len(ds))
 			ds[i], ds[j] = ds[j], ds[i]
@@ -722,7 +900,7 @@ func c06GenProbes(r *vf.Rand, exprs []string) []c06Probe {
 
 		if !seen[k] && len(ps) < 40 {
 			seen[k] = true
-			ps = append(ps, c06Probe{M: m, P: p})
+			ps = append(ps, c06Probe{M: m, P: p, Raw: r.Intn(100) < 25})
 		}
 	}
 
@@ -753,17 +931,29 @@ func c06GenProbes(r *vf.Rand, exprs []string) []c06Probe {
 }
 
 func c06GenRun(r *vf.Rand) (c06Case, c06Obs, []string) {
-	pfs := c06Profiles()
-	pf := pfs[r.Intn(len(pfs))]
+	pf := c06PickProfile(r)
 	g := &c06Gen{r: r, pf: &pf, tags: map[string]bool{"profile:" + pf.name: true}}
 
 	nsrc := 1 + r.Intn(pf.nsrc)
+
+	// source ids: a random selection from one family of related names
+	fam := append([]string{}, c06SrcFamilies[r.Intn(len(c06SrcFamilies))]...)
+	for i := len(fam) - 1; i > 0; i-- {
+		j := r.Intn(i + 1)
+		fam[i], fam[j] = fam[j], fam[i]
+	}
+
+	names := fam[:nsrc]
 
 	// expression pool: a few expressions, distributed over the sources
 	var all []string
 
 	for s := 0; s < nsrc; s++ {
 		n := 2 + r.Intn(4)
+		if pf.big {
+			n = 2 + r.Intn(3)
+		}
+
 		pool := make([]string, 0, n)
 
 		if pf.family {
@@ -807,11 +997,15 @@ func c06GenRun(r *vf.Rand) (c06Case, c06Obs, []string) {
 		all = append(all, pool...)
 	}
 
-	run := c06NewRunner(c06GenProbes(r, all))
+	run := c06NewRunner(c06GenProbes(r, all), names)
 
 	nops := 2 + r.Intn(8)
 	if r.Intn(100) < 25 {
 		nops = 2 + r.Intn(pf.maxOps)
+	}
+
+	if pf.big {
+		nops = 12 + r.Intn(pf.maxOps-11)
 	}
 
 	exists := make([]bool, nsrc)      // as far as the implementation accepted
@@ -824,6 +1018,9 @@ func c06GenRun(r *vf.Rand) (c06Case, c06Obs, []string) {
 		var op c06Op
 
 		switch {
+		case !exists[src] && r.Intn(100) < 8:
+			op = c06Op{Kind: "del", Src: src}
+			g.tags["gen:delete-unknown"] = true
 		case !exists[src]:
 			kind := "add"
 			if r.Intn(100) < 20 {
@@ -882,16 +1079,16 @@ func c06GenRun(r *vf.Rand) (c06Case, c06Obs, []string) {
 		tags = append(tags, t)
 	}
 
-	return c06Case{Ops: run.ops, Probes: run.probes}, c06Obs{Steps: run.steps}, tags
+	return c06Case{Ops: run.ops, Probes: run.probes, SrcNames: names}, c06Obs{Steps: run.steps}, tags
 }
 
 func c06Run(c c06Case) (c06Case, c06Obs) {
-	run := c06NewRunner(c.Probes)
+	run := c06NewRunner(c.Probes, c.SrcNames)
 	for _, op := range c.Ops {
 		run.do(op)
 	}
 
-	return c06Case{Ops: run.ops, Probes: run.probes}, c06Obs{Steps: run.steps}
+	return c06Case{Ops: run.ops, Probes: run.probes, SrcNames: c.SrcNames}, c06Obs{Steps: run.steps}
 }
 
 // ---- classification (input histogram, sites of DESIGN 6.20a) ------------------------
@@ -1095,7 +1292,8 @@ func c06Coq(c c06Case, o c06Obs) string {
 		return vf.CoqApp("pb", fmt.Sprint(p.M%len(c06Methods)), vf.CoqStr(p.P))
 	})
 	steps := vf.CoqListOf(o.Steps, func(s c06Step) string {
-		return vf.CoqApp("so", fmt.Sprint(s.Res), c06CoqAns(s.Hist), vf.CoqBool(s.FreshOK), c06CoqAns(s.Fresh))
+		return vf.CoqApp("so", fmt.Sprint(s.Res), c06CoqAns(s.Hist), vf.CoqBool(s.FreshOK), c06CoqAns(s.Fresh),
+			c06CoqInts(s.HistCap), c06CoqInts(s.FreshCap))
 	})
 
 	return vf.CoqApp("cs", ops, probes, steps)
